@@ -61,6 +61,12 @@ def main(argv=None):
     mod = importlib.import_module(f"vmon.checks.{args.prop.lower()}")
 
     state = None
+    if job["name"] == "repo-tests":
+        # the repository's own test-suite as a workload for invariant hooks (vmon/repotests.py): no generated cases
+        from . import repotests
+
+        mod = type("RepoTests", (), {"run_case": staticmethod(lambda ctx, job, idx, rng, st: repotests.run(ctx, args.prop))})
+        args.lo, args.hi = 0, 1
     try:
         if hasattr(mod, "setup"):
             state = mod.setup(ctx, job)
